@@ -349,12 +349,83 @@ Definition val_math_env_gen (fx : bool) : list string -> list string -> xml -> l
 
 (** flipped to true by the orchestrator when fixes/C01-mathml-arity.diff is committed to /repo *)
 Definition arity_fix_committed : bool := true.
+
+(** Later repairs of the validator, behind two more switches.  The definitions above are kept as they were (C04 reasons
+    about them); [val_cicn_gen false] = [val_cicn] and [val_struct_d false] = [val_struct_q] by construction.
+    [cf]: commit 064d865 — validateAndCleanCiNode skips comments before it reads the name
+          ("while ((childNode != nullptr) && childNode->isComment()) childNode = childNode->next();").
+    [df]: fixes/C01-diff-operand-ci.diff — once the three tests of the diff branch pass, the second sibling
+          (mathmlChildNode(parentNode, 2)) must be a ci. *)
+Fixpoint first_non_comment (l : list xml) : option xml :=
+  match l with [] => None | x :: r => if is_comment x then first_non_comment r else Some x end.
+Definition val_ci_name_gen (cf : bool) (vars : list string) (kids : list xml) : list rule :=
+  if cf then
+    let t := match first_non_comment (visible kids) with Some (Text s) => strip s | _ => "" end in
+    if str_is_empty t then [] else if in_list t vars then [] else [R_MATH_CI_VARIABLE_REFERENCE]
+  else val_ci_name vars kids.
+Fixpoint val_cicn_gen (cf : bool) (vars units : list string) (x : xml) : list rule :=
+  match x with
+  | Elem _ _ attrs kids =>
+      (if is_mathml_el "cn" x then val_cn_units units attrs
+       else if is_mathml_el "ci" x then val_ci_name_gen cf vars kids else [])
+      ++ (fix go (ks : list xml) : list rule :=
+            match ks with [] => [] | k :: r => val_cicn_gen cf vars units k ++ go r end) kids
+  | _ => []
+  end.
+
+Definition dwrap (df : bool) (pk : list xml) (n : string) (r : list rule) : list rule :=
+  if df && String.eqb n "diff" then
+    match r with
+    | [] => match nth_error pk 2 with
+            | Some c => mm (is_mathml_el "ci" c) []
+            | None => [V_NULL_DEREF]          (* mathmlChildNode(parentNode, 2)-> without a null test *)
+            end
+    | _ => r
+    end
+  else r.
+
+Fixpoint val_struct_d (df q fx : bool) (pk : list xml) (idx : nat) (x : xml) {struct x} : list rule :=
+  match x with
+  | Elem ns n attrs kids =>
+      if negb (String.eqb ns MATHML_NS) then [] else
+      let sub := (fix go (ks : list xml) (i : nat) {struct ks} : list rule :=
+                    match ks with
+                    | [] => []
+                    | k :: r => if is_mathml k then val_struct_d df q fx (mkids kids) i k ++ go r (S i) else go r i
+                    end) kids 0 in
+      dwrap df pk n (qwrap q n (val_node fx pk idx n attrs kids sub) sub)
+  | _ => []
+  end.
+Fixpoint val_struct_kids_d (df q fx : bool) (mk : list xml) (ks : list xml) (i : nat) : list rule :=
+  match ks with
+  | [] => []
+  | k :: r => if is_mathml k then val_struct_d df q fx mk i k ++ val_struct_kids_d df q fx mk r (S i)
+              else val_struct_kids_d df q fx mk r i
+  end.
+
+Definition val_math_env_gen3 (cf df q fx : bool) (vars units : list string) (root : xml) : list rule :=
+  if negb (is_mathml_el "math" root) then [R_MATH_ELEMENT]
+  else
+    (fix go (ks : list xml) : list rule := match ks with [] => [] | k :: r => val_supported k ++ go r end) (kids_of root)
+    ++ val_cicn_gen cf vars units root
+    ++ val_struct_kids_d df q fx (mkids (kids_of root)) (kids_of root) 0.
+
+(** 064d865 is in /repo *)
+Definition ci_comment_fix_committed : bool := true.
+(** flipped to true by the orchestrator when fixes/C01-diff-operand-ci.diff is committed to /repo *)
+Definition diff_ci_fix_committed : bool := false.
+
+(** the validator as it is in /repo now: what the drivers run *)
+Definition val_math_env_head : list string -> list string -> xml -> list rule :=
+  val_math_env_gen3 ci_comment_fix_committed diff_ci_fix_committed qualifier_fix_committed arity_fix_committed.
+(** kept for C04's tie lemma (ValidMathProofs.val_math_env_q_c01): the validator WITHOUT the two later switches, i.e. as it
+    was before 064d865; new code should use [val_math_env_head] / [val_math_env_gen3] *)
 Definition val_math_env : list string -> list string -> xml -> list rule := val_math_env_gen arity_fix_committed.
 
 (** the environment used by the drivers and by the closed statements: variables t x y z, units "dimensionless" *)
 Definition std_vars : list string := ["t"; "x"; "y"; "z"].
 Definition std_units : list string := ["dimensionless"].
-Definition val_math (root : xml) : list rule := val_math_env std_vars std_units root.
+Definition val_math (root : xml) : list rule := val_math_env_head std_vars std_units root.
 
 (* ------------------------------------------------------------------------------------------------ analyser *)
 
@@ -461,15 +532,24 @@ Definition next (c : option (list xml)) : option (list xml) :=
   match c with Some (_ :: (n :: r)) => Some (n :: r) | _ => None end.
 Definition cur (c : option (list xml)) : option xml := match c with Some (x :: _) => Some x | _ => None end.
 
+(** repairs on the analyser / generator side:
+    [af_ci_comment]: commit 064d865 — the ci branch reads nonCommentChildNode(node, 0) instead of node->firstChild();
+    [af_guards]: fixes/C01-analyser-optional-children.diff — the apply branch analyses child 1 only "if (childCount >= 2)",
+                 the piecewise branch child 0 only "if (childCount >= 1)";
+    [af_gen_null]: fixes/C01-generator-null-operand.diff — generateCode(nullptr) returns "" and a CI without parent is
+                 printed as a plain variable: nothing the generator reads can be missing any more. *)
+Record afix := { af_ci_comment : bool; af_guards : bool; af_gen_null : bool }.
+Definition afix_none : afix := {| af_ci_comment := false; af_guards := false; af_gen_null := false |}.
+
 (** the branches of analyseNode for a MathML element named [n] with raw children [kids], whose MathML children are
     analysed by the continuations [ks]; [a] is the AST slot after "if (ast == nullptr) ast.reset(...)";
     [gp_is_math]: node->parent()->parent()->isMathmlElement("math"); [vars]: the component's variable names *)
-Definition ana_body (vars : list string) (gp_is_math : bool) (n : string) (kids : list xml) (ks : list kont) (a : ast) : res ast :=
+Definition ana_body (F : afix) (vars : list string) (gp_is_math : bool) (n : string) (kids : list xml) (ks : list kont) (a : ast) : res ast :=
   let cnt := length ks in
   if String.eqb n "apply" then
     a0 <- ana_child kids ks 0 (Some a) ;;
-    l <- ana_child kids ks 1 (ast_left a0) ;;
-    let a1 := set_left a0 l in
+    a1 <- (if af_guards F && negb (2 <=? cnt) then Ok a0
+           else l <- ana_child kids ks 1 (ast_left a0) ;; Ok (set_left a0 l)) ;;
     if 3 <=? cnt then
       rc <- ana_child kids ks (cnt - 1) None ;;
       rc' <- apply_chain kids ks (cnt - 3) rc ;;
@@ -479,8 +559,8 @@ Definition ana_body (vars : list string) (gp_is_math : bool) (n : string) (kids 
     if gp_is_math then Ok a else Ok (populate a EQ)
   else if String.eqb n "piecewise" then
     let a0 := populate a PIECEWISE in
-    l <- ana_child kids ks 0 (ast_left a0) ;;
-    let a1 := set_left a0 l in
+    a1 <- (if af_guards F && negb (1 <=? cnt) then Ok a0
+           else l <- ana_child kids ks 0 (ast_left a0) ;; Ok (set_left a0 l)) ;;
     if 2 <=? cnt then
       rc <- ana_child kids ks (cnt - 1) None ;;
       rc' <- piecewise_chain kids ks (cnt - 2) rc ;;
@@ -495,7 +575,8 @@ Definition ana_body (vars : list string) (gp_is_math : bool) (n : string) (kids 
     let a0 := populate a OTHERWISE in
     l <- ana_child kids ks 0 (ast_left a0) ;; Ok (set_left a0 l)
   else if String.eqb n "ci" then
-    match cur (first_child kids) with
+    (* nonCommentChildNode(node, 0): node->firstChild() then next() until a non-comment; no null test on the way *)
+    match (if af_ci_comment F then first_non_comment (visible kids) else cur (first_child kids)) with
     | None => Crash S_CiNoChild
     | Some c =>
         let name := stripped c in
@@ -542,15 +623,15 @@ Fixpoint konts (f : xml -> kont) (l : list xml) : list kont :=
   end.
 
 (** analyseNode.  [parent]: the parent element; [into]: the AST slot handed in (nullptr = None). *)
-Fixpoint ana_node (vars : list string) (parent : xml) (gp_is_math : bool) (x : xml) (into : option ast) {struct x} : res ast :=
+Fixpoint ana_node (F : afix) (vars : list string) (parent : xml) (gp_is_math : bool) (x : xml) (into : option ast) {struct x} : res ast :=
   match x with
   | Elem ns n attrs kids =>
       if negb (String.eqb ns MATHML_NS) then Ok (populate (get into) NAN) else
-      ana_body vars gp_is_math n kids
+      ana_body F vars gp_is_math n kids
         ((fix go (l : list xml) : list kont :=
             match l with
             | [] => []
-            | k :: r => if is_mathml k then (fun slot => ana_node vars x (is_mathml_el "math" parent) k slot) :: go r
+            | k :: r => if is_mathml k then (fun slot => ana_node F vars x (is_mathml_el "math" parent) k slot) :: go r
                         else go r
             end) kids)
         (get into)
@@ -604,34 +685,48 @@ Definition side_ok (c : option ast) : bool :=
     equality an issue is raised whose text is built by expression(ast) -> Generator::equationCode(ast), which prints
     the whole AST.  Equalities are printed later (units issues, code generation) and inspected by
     AnalyserInternalEquation::check -> variableOnLhsOrRhs. *)
-Definition ana_equation (vars : list string) (root : xml) (x : xml) : res ast :=
-  a <- ana_node vars root false x (Some ast_new) ;;
+Definition printable_gen (gf : bool) (has_parent : bool) (a : ast) : bool := gf || printable has_parent a.
+Definition ana_equation (F : afix) (vars : list string) (root : xml) (x : xml) : res ast :=
+  a <- ana_node F vars root false x (Some ast_new) ;;
   match ast_ty a with
   | EQUALITY =>
-      if negb (printable false a) then Crash S_EqnNotPrintable
+      if negb (printable_gen (af_gen_null F) false a) then Crash S_EqnNotPrintable
       else if side_ok (ast_left a) && side_ok (ast_right a) then Ok a else Crash S_DiffNotCi
-  | _ => if printable false a then Ok a else Crash S_ExprNotPrintable
+  | _ => if printable_gen (af_gen_null F) false a then Ok a else Crash S_ExprNotPrintable
   end.
 
-Fixpoint ana_math_kids (vars : list string) (root : xml) (ks : list xml) : res (list ast) :=
+Fixpoint ana_math_kids (F : afix) (vars : list string) (root : xml) (ks : list xml) : res (list ast) :=
   match ks with
   | [] => Ok []
   | k :: r =>
       if is_mathml k then
-        a <- ana_equation vars root k ;;
-        rest <- ana_math_kids vars root r ;;
+        a <- ana_equation F vars root k ;;
+        rest <- ana_math_kids F vars root r ;;
         Ok (a :: rest)
-      else ana_math_kids vars root r
+      else ana_math_kids F vars root r
   end.
 
-(** all equations of one <math> document; None = the process would have dereferenced a null pointer *)
-Definition ana_math_env (vars : list string) (root : xml) : res (list ast) :=
-  ana_math_kids vars root (visible (kids_of root)).
-Definition ana_math (root : xml) : res (list ast) := ana_math_env std_vars root.
+(** all equations of one <math> document *)
+Definition ana_math_env_gen (F : afix) (vars : list string) (root : xml) : res (list ast) :=
+  ana_math_kids F vars root (visible (kids_of root)).
 
+(** the analyser / generator as they are in /repo now (064d865 is in; the other two flags are flipped by the orchestrator
+    when fixes/C01-analyser-optional-children.diff / fixes/C01-generator-null-operand.diff are committed) *)
+Definition analyser_guards_fix_committed : bool := false.
+Definition generator_null_fix_committed : bool := false.
+Definition afix_committed : afix :=
+  {| af_ci_comment := ci_comment_fix_committed; af_guards := analyser_guards_fix_committed;
+     af_gen_null := generator_null_fix_committed |}.
+Definition ana_math_env (vars : list string) (root : xml) : res (list ast) := ana_math_env_gen afix_committed vars root.
+Definition ana_math (root : xml) : res (list ast) := ana_math_env std_vars root.
+Definition ana_math_gen (F : afix) (root : xml) : res (list ast) := ana_math_env_gen F std_vars root.
+
+Definition ana_gen (F : afix) (root : xml) : option (list ast) :=
+  match ana_math_gen F root with Ok l => Some l | Crash _ => None end.
 Definition ana_node_opt (vars : list string) (root : xml) : option (list ast) :=
   match ana_math_env vars root with Ok l => Some l | Crash _ => None end.
-(** [ana_node] of the property text: the analyser's consumption of one <math> document *)
+(** [ana_node] of the property text: the analyser's consumption of one <math> document; None = the process would have
+    dereferenced a null pointer *)
 Definition ana (root : xml) : option (list ast) := ana_node_opt std_vars root.
 
 (* ------------------------------------------------------------------------------------------------ power exponents *)
@@ -661,46 +756,56 @@ Fixpoint lookup_iv (n : string) (ivs : list (string * string)) : string :=
   match ivs with [] => "" | (m, v) :: r => if String.eqb m n then v else lookup_iv n r end.
 Definition pv_unavailable_type (t : ty) : bool :=
   match t with EQUALITY | DIFF | BVAR | PIECEWISE | PIECE | OTHERWISE => true | _ => false end.
-Fixpoint power_value_a (ivs : list (string * string)) (a : ast) (avail : bool) {struct a} : pv :=
+(** [sf]: commit 82725c7 — convertToDouble(text, value) instead of std::stod(text): false unless isCellMLReal(text),
+    std::out_of_range caught; a text that does not convert makes the exponent value "not available". *)
+Definition number_of (sf : bool) (s : string) : pv :=
+  if sf then
+    (if is_real s then match stod s with
+                       | StodValue => PvDone true
+                       | StodOutOfRange => PvDone false
+                       | StodInvalidArgument => PvThrow StodInvalidArgument     (* not caught by stringToDouble *)
+                       end
+     else PvDone false)
+  else match stod s with StodValue => PvDone true | e => PvThrow e end.
+Fixpoint power_value_a (sf : bool) (ivs : list (string * string)) (a : ast) (avail : bool) {struct a} : pv :=
   match a with
   | Ast t v x l r =>
-      match (match l with Some c => power_value_a ivs c avail | None => PvDone avail end) with
+      match (match l with Some c => power_value_a sf ivs c avail | None => PvDone avail end) with
       | PvThrow e => PvThrow e
       | PvDone false => PvDone false
       | PvDone true =>
-          match (match r with Some c => power_value_a ivs c true | None => PvDone true end) with
+          match (match r with Some c => power_value_a sf ivs c true | None => PvDone true end) with
           | PvThrow e => PvThrow e
           | PvDone false => PvDone false
           | PvDone true =>
               match t with
               | CI => let iv := lookup_iv (match x with Some n => n | None => "" end) ivs in
-                      if str_is_empty iv then PvDone false
-                      else match stod iv with StodValue => PvDone true | e => PvThrow e end
-              | CN => match stod v with StodValue => PvDone true | e => PvThrow e end
+                      if str_is_empty iv then PvDone false else number_of sf iv
+              | CN => number_of sf v
               | _ => if pv_unavailable_type t then PvDone false else PvDone true
               end
           end
       end
   end.
-Definition power_value (ivs : list (string * string)) (a : option ast) (avail : bool) : pv :=
-  match a with None => PvDone avail (* if (ast == nullptr) return NAN *) | Some c => power_value_a ivs c avail end.
+Definition power_value (sf : bool) (ivs : list (string * string)) (a : option ast) (avail : bool) : pv :=
+  match a with None => PvDone avail (* if (ast == nullptr) return NAN *) | Some c => power_value_a sf ivs c avail end.
 
 (** analyseEquationUnits: every POWER node evaluates its right operand, every ROOT whose left child is a DEGREE
     evaluates that — when the exponent is dimensionless (assumed here: the drivers use dimensionless variables; on
     other documents the prediction is "may").  Post-order, left to right, as the units analysis walks the AST. *)
-Fixpoint units_pass_a (ivs : list (string * string)) (a : ast) {struct a} : option stod_result :=
+Fixpoint units_pass_a (sf : bool) (ivs : list (string * string)) (a : ast) {struct a} : option stod_result :=
   match a with
   | Ast t v x l r =>
-      match (match l with Some c => units_pass_a ivs c | None => None end) with
+      match (match l with Some c => units_pass_a sf ivs c | None => None end) with
       | Some e => Some e
       | None =>
-          match (match r with Some c => units_pass_a ivs c | None => None end) with
+          match (match r with Some c => units_pass_a sf ivs c | None => None end) with
           | Some e => Some e
           | None =>
               match t with
-              | POWER => match power_value ivs r true with PvThrow e => Some e | _ => None end
+              | POWER => match power_value sf ivs r true with PvThrow e => Some e | _ => None end
               | ROOT => match l with
-                        | Some (Ast DEGREE _ _ _ _) => match power_value ivs l true with PvThrow e => Some e | _ => None end
+                        | Some (Ast DEGREE _ _ _ _) => match power_value sf ivs l true with PvThrow e => Some e | _ => None end
                         | _ => None
                         end
               | _ => None
@@ -708,17 +813,21 @@ Fixpoint units_pass_a (ivs : list (string * string)) (a : ast) {struct a} : opti
           end
       end
   end.
-Fixpoint units_pass_all (ivs : list (string * string)) (eqs : list ast) : option stod_result :=
+Fixpoint units_pass_all (sf : bool) (ivs : list (string * string)) (eqs : list ast) : option stod_result :=
   match eqs with
   | [] => None
-  | a :: r => match units_pass_a ivs a with Some e => Some e | None => units_pass_all ivs r end
+  | a :: r => match units_pass_a sf ivs a with Some e => Some e | None => units_pass_all sf ivs r end
   end.
 (** the uncaught exception Analyser::analyseModel would end with on this <math> document, if any *)
-Definition pow_math_env (vars : list string) (ivs : list (string * string)) (root : xml) : option stod_result :=
-  match ana_math_env vars root with
-  | Ok eqs => units_pass_all ivs eqs
+Definition pow_math_env_gen (F : afix) (sf : bool) (vars : list string) (ivs : list (string * string)) (root : xml) : option stod_result :=
+  match ana_math_env_gen F vars root with
+  | Ok eqs => units_pass_all sf ivs eqs
   | Crash _ => None
   end.
+(** 82725c7 is in /repo *)
+Definition stod_fix_committed : bool := true.
+Definition pow_math_env : list string -> list (string * string) -> xml -> option stod_result :=
+  pow_math_env_gen afix_committed stod_fix_committed.
 (** trigger condition of a separate analyser defect (family Kunits-exponent-unavailable, observed, not modelled
     further): some POWER / ROOT-with-DEGREE exponent whose value is "not available" (a ci without initial_value, a
     piecewise, ...) leaves powerData.mExponentValueAvailable false, and analyseEquationUnits later reads
@@ -729,9 +838,9 @@ Fixpoint exponent_unavailable_a (ivs : list (string * string)) (a : ast) {struct
       (match l with Some c => exponent_unavailable_a ivs c | None => false end)
       || (match r with Some c => exponent_unavailable_a ivs c | None => false end)
       || match t with
-         | POWER => match power_value ivs r true with PvDone false => true | _ => false end
+         | POWER => match power_value stod_fix_committed ivs r true with PvDone false => true | _ => false end
          | ROOT => match l with
-                   | Some (Ast DEGREE _ _ _ _) => match power_value ivs l true with PvDone false => true | _ => false end
+                   | Some (Ast DEGREE _ _ _ _) => match power_value stod_fix_committed ivs l true with PvDone false => true | _ => false end
                    | _ => false
                    end
          | _ => false
